@@ -461,8 +461,13 @@ def _sequence_common_getitem_impl(ctx: CallContext, typ: type) -> ImplReturn:
                 if isinstance(self_value, SequenceValue):
                     members = self_value.get_member_sequence()
                     if members is not None:
+                        try:
+                            sliced = members[key.val]
+                        except ValueError:
+                            # slice step cannot be zero (ValueError at runtime too)
+                            return GenericValue(typ, self_value.args)
                         return SequenceValue.make_or_known(
-                            typ, [(False, m) for m in members[key.val]]
+                            typ, [(False, m) for m in sliced]
                         )
                     else:
                         # If the value contains unpacked values, we don't attempt
